@@ -304,7 +304,7 @@ class Model:
         if k == "map":
             return (
                 isinstance(j, dict)
-                and all(isinstance(key, str) for key in j)
+                and all(self.valid_key(key, t["key"]) for key in j)
                 and all(self.valid(v, t["value"], strict, python_custom) for v in j.values())
             )
         if k == "tuple":
@@ -320,6 +320,17 @@ class Model:
         if k == "literal":
             return self._valid_obj(j, t["value"]["properties"], strict, python_custom)
         raise ValueError(k)
+
+    def valid_key(self, key: Any, kt: dict) -> bool:
+        """JSON object keys are strings; an `integer` key type constrains the text to an LSP integer."""
+        if not isinstance(key, str):
+            return False
+        kt = self.resolve_alias(kt)
+        if kt["kind"] == "base" and kt["name"] == "integer":
+            if not re.fullmatch(r"-?(0|[1-9][0-9]*)", key):
+                return False
+            return INT_MIN <= int(key) <= INT_MAX
+        return True
 
     def _valid_any(self, j: Any) -> bool:
         if j is None or isinstance(j, (bool, str)):
